@@ -358,6 +358,140 @@ theorem drain_frames (fsize : Nat) (hf : fsize < 16777216) :
       rw [ih (fun g hg => hw g (by simp [hg])) fuel (by rw [List.length_append, hlen] at hfuel; omega)]
       simp
 
+/-! ### header blocks in CONTINUATION frames -/
+
+theorem serialize_length (f : RawFrame) : (serialize f).length = 9 + f.payload.length := by
+  simp [serialize_eq, hdr9_length]
+
+theorem slice_mid_hdr (pre more : Bytes) (c : RawFrame) :
+    slice (pre ++ serialize c ++ more) pre.length 9 = hdr9 c := by
+  unfold slice
+  rw [List.append_assoc, List.drop_left' rfl, serialize_eq, List.append_assoc, List.take_left' (hdr9_length c)]
+
+theorem slice_mid_payload (pre more : Bytes) (c : RawFrame) :
+    slice (pre ++ serialize c ++ more) (pre.length + 9) c.payload.length = c.payload := by
+  unfold slice
+  have : pre ++ serialize c ++ more = (pre ++ hdr9 c) ++ (c.payload ++ more) := by
+    simp [serialize_eq, List.append_assoc]
+  rw [this, List.drop_left' (by simp [hdr9_length]), List.take_left' rfl]
+
+/-- one round of the CONTINUATION scan on a serialised CONTINUATION frame -/
+theorem contScan_step (fsize sid : Nat) (pre more : Bytes) (c : RawFrame) (fuel : Nat) (acc : Bytes) (k : Nat)
+    (ht : c.ftype = 9) (hfl : c.flags < 256) (hs : c.sid = sid) (hs32 : sid < 4294967296)
+    (hl : c.payload.length ≤ fsize) (hf : fsize < 16777216)
+    (h64 : pre.length + 9 + c.payload.length < 65536) :
+    contScan fsize sid (pre ++ serialize c ++ more) (fuel + 1) pre.length acc k =
+      if flagSet c.flags 4 then .done (pre.length + 9 + c.payload.length) (acc ++ c.payload) (k + 1)
+      else contScan fsize sid (pre ++ serialize c ++ more) fuel (pre.length + 9 + c.payload.length)
+             (acc ++ c.payload) (k + 1) := by
+  have hlen : (pre ++ serialize c ++ more).length = pre.length + 9 + c.payload.length + more.length := by
+    simp [List.length_append, serialize_length]; omega
+  have hh : fhdr (hdr9 c) = ⟨c.payload.length, c.ftype, c.flags, c.sid⟩ :=
+    fhdr_hdr9 c (by omega) (by omega) hfl (by omega)
+  rw [contScan]
+  simp only [slice_mid_hdr, hh, slice_mid_payload]
+  have h1 : ¬ (pre ++ serialize c ++ more).length < pre.length + 9 := by omega
+  have h2 : ¬ c.ftype ≠ 9 := by simp [ht]
+  have h3 : ¬ c.sid ≠ sid := by simp [hs]
+  have h4 : ¬ c.payload.length > fsize := by omega
+  have h5 : ¬ pre.length + 9 + c.payload.length ≥ 65536 := by omega
+  have h6 : ¬ (pre ++ serialize c ++ more).length < pre.length + 9 + c.payload.length := by omega
+  simp only [h1, h2, h3, h4, h5, h6, if_false]
+
+theorem contFrames_length_ge (sid : Nat) : ∀ ps : List Bytes,
+    9 * ps.length ≤ ((contFrames sid ps).flatMap serialize).length
+  | [] => by simp [contFrames]
+  | [p] => by simp [contFrames, serialize_length]
+  | p :: q :: ps => by
+    have := contFrames_length_ge sid (q :: ps)
+    simp only [contFrames, List.flatMap_cons, List.length_append, serialize_length, List.length_cons] at this ⊢
+    omega
+
+/-- the scan over a whole chain of serialised CONTINUATION frames -/
+theorem contScan_frames (fsize sid : Nat) (hf : fsize < 16777216) (hs32 : sid < 4294967296) :
+    ∀ (ps : List Bytes), ps ≠ [] → (∀ p ∈ ps, p.length ≤ fsize) →
+    ∀ (pre rest acc : Bytes) (k fuel : Nat),
+      pre.length + ((contFrames sid ps).flatMap serialize).length < 65536 → ps.length ≤ fuel →
+      contScan fsize sid (pre ++ (contFrames sid ps).flatMap serialize ++ rest) fuel pre.length acc k =
+        .done (pre.length + ((contFrames sid ps).flatMap serialize).length) (acc ++ ps.flatten) (k + ps.length)
+  | [], hne, _ => absurd rfl hne
+  | [p], _, hl => by
+    intro pre rest acc k fuel h64 hfuel
+    cases fuel with
+    | zero => simp at hfuel
+    | succ fuel =>
+      simp only [contFrames, List.flatMap_cons, List.flatMap_nil, List.append_nil, serialize_length] at h64 ⊢
+      rw [contScan_step fsize sid pre rest ⟨9, 4, sid, p⟩ fuel acc k rfl (by simp) rfl hs32
+            (hl p (by simp)) hf (by simp only; omega)]
+      have : flagSet 4 4 = true := by decide
+      simp [this]
+      omega
+  | p :: q :: ps, _, hl => by
+    intro pre rest acc k fuel h64 hfuel
+    cases fuel with
+    | zero => simp at hfuel
+    | succ fuel =>
+      have ih := contScan_frames fsize sid hf hs32 (q :: ps) (by simp) (fun x hx => hl x (by simp [hx]))
+      simp only [contFrames, List.flatMap_cons, List.length_append, serialize_length] at h64 ⊢
+      have e : pre ++ (serialize ⟨9, 0, sid, p⟩ ++ (contFrames sid (q :: ps)).flatMap serialize) ++ rest =
+          pre ++ serialize ⟨9, 0, sid, p⟩ ++ ((contFrames sid (q :: ps)).flatMap serialize ++ rest) := by
+        simp [List.append_assoc]
+      rw [e, contScan_step fsize sid pre _ ⟨9, 0, sid, p⟩ fuel acc k rfl (by simp) rfl hs32
+            (hl p (by simp)) hf (by simp only; omega)]
+      have : flagSet 0 4 = false := by decide
+      simp only [this, Bool.false_eq_true, if_false]
+      have e2 : pre ++ serialize ⟨9, 0, sid, p⟩ ++ ((contFrames sid (q :: ps)).flatMap serialize ++ rest) =
+          (pre ++ serialize ⟨9, 0, sid, p⟩) ++ (contFrames sid (q :: ps)).flatMap serialize ++ rest := by
+        simp [List.append_assoc]
+      have e3 : pre.length + 9 + p.length = (pre ++ serialize (⟨9, 0, sid, p⟩ : RawFrame)).length := by
+        simp [List.length_append, serialize_length]; omega
+      rw [e2, e3, ih (pre ++ serialize ⟨9, 0, sid, p⟩) rest (acc ++ p) (k + 1) fuel
+            (by simp only [List.length_append, serialize_length]; omega)
+            (by simp at hfuel ⊢; omega)]
+      simp only [List.length_append, serialize_length, List.flatten_cons, List.length_cons, List.append_assoc]
+      congr 1
+      · omega
+      · omega
+
+/-- a header block cut into HEADERS + CONTINUATION frames is read as ONE HEADERS frame carrying
+    the concatenated block, END_HEADERS set -/
+theorem parseOne_continuation (fsize sid flags : Nat) (hf : fsize < 16777216) (hs : sid < 2147483648)
+    (hfl : flags < 256) (h4 : flagSet flags 4 = false) (h8 : flagSet flags 8 = false)
+    (p0 : Bytes) (ps : List Bytes) (hne : ps ≠ []) (hl : ∀ p ∈ p0 :: ps, p.length ≤ fsize) (rest : Bytes)
+    (h64 : 9 + p0.length + ((contFrames sid ps).flatMap serialize).length < 65536) :
+    parseOne fsize (serialize ⟨1, flags, sid, p0⟩ ++ (contFrames sid ps).flatMap serialize ++ rest) =
+      .frame ⟨1, flags + 4, sid, p0 ++ ps.flatten⟩ ps.length
+        (9 + p0.length + ((contFrames sid ps).flatMap serialize).length) := by
+  have hge := contFrames_length_ge sid ps
+  have hlen : (serialize (⟨1, flags, sid, p0⟩ : RawFrame) ++ (contFrames sid ps).flatMap serialize ++ rest).length =
+      9 + p0.length + ((contFrames sid ps).flatMap serialize).length + rest.length := by
+    simp only [List.length_append, serialize_length]
+  have hs0 : slice (serialize (⟨1, flags, sid, p0⟩ : RawFrame) ++ (contFrames sid ps).flatMap serialize ++ rest) 0 9
+      = hdr9 ⟨1, flags, sid, p0⟩ := by
+    have := slice_mid_hdr [] ((contFrames sid ps).flatMap serialize ++ rest) ⟨1, flags, sid, p0⟩
+    simpa [List.append_assoc] using this
+  have hs9 : slice (serialize (⟨1, flags, sid, p0⟩ : RawFrame) ++ (contFrames sid ps).flatMap serialize ++ rest) 9 p0.length
+      = p0 := by
+    have := slice_mid_payload [] ((contFrames sid ps).flatMap serialize ++ rest) ⟨1, flags, sid, p0⟩
+    simpa [List.append_assoc] using this
+  have hh : fhdr (hdr9 ⟨1, flags, sid, p0⟩) = ⟨p0.length, 1, flags, sid⟩ :=
+    fhdr_hdr9 ⟨1, flags, sid, p0⟩ (by have := hl p0 (by simp); simp only; omega) (by simp) hfl (by simp only; omega)
+  have hscan := contScan_frames fsize sid hf (by omega) ps hne (fun p hp => hl p (by simp [hp]))
+    (serialize ⟨1, flags, sid, p0⟩) rest [] 0 contFuel
+    (by simp only [serialize_length]; omega) (by simp only [contFuel]; omega)
+  simp only [serialize_length] at hscan
+  unfold parseOne
+  rw [hs0, hh]
+  simp only
+  have c1 : ¬ (serialize (⟨1, flags, sid, p0⟩ : RawFrame) ++ (contFrames sid ps).flatMap serialize ++ rest).length < 9 := by
+    omega
+  have c2 : ¬ p0.length > fsize := by have := hl p0 (by simp); omega
+  have c3 : ¬ (serialize (⟨1, flags, sid, p0⟩ : RawFrame) ++ (contFrames sid ps).flatMap serialize ++ rest).length
+      < 9 + p0.length := by omega
+  have hmod : sid % 2147483648 = sid := Nat.mod_eq_of_lt hs
+  simp only [c1, c2, c3, if_false, h4, and_self, if_true, hmod, hscan, mergeHeaders, h8, Bool.false_eq_true,
+    hs9, List.nil_append, Nat.zero_add]
+
 /-! ### one read after another -/
 
 theorem readerFeed_append (st : RSt) (a b : Bytes) :
